@@ -239,6 +239,11 @@ void text_wide(sink& out, guarded_buffer& gb, std::uint64_t salt)
     vs.push_back(std::numeric_limits<W>::max());
     vs.push_back(std::numeric_limits<W>::lowest());
     vs.push_back(W(std::numeric_limits<W>::max() - make<W>(false, 1)));
+    if constexpr (S) {
+        // the longest texts of the type: every decimal digit plus the sign
+        vs.push_back(W(-std::numeric_limits<W>::max()));
+        vs.push_back(W(-(std::numeric_limits<W>::max() - make<W>(false, 1))));
+    }
     text_integer_vals<W>(out, gb, vs);
 }
 
